@@ -218,7 +218,10 @@ impl DbInner {
 		let mut columns = Vec::with_capacity(metadata.columns.len());
 		let mut commit_overlay = Vec::with_capacity(metadata.columns.len());
 		let log = Log::open(options)?;
-		let last_enacted = log.replay_record_id().unwrap_or(2) - 1;
+		// Record ids start at 1: a first record id of 0 can only come from a damaged log. It must not wrap
+		// around (a panic on arithmetic overflow in builds that check for it); replay then rejects the
+		// record as out of sequence.
+		let last_enacted = log.replay_record_id().unwrap_or(2).saturating_sub(1);
 		for c in 0..metadata.columns.len() {
 			let column = Column::open(c as ColId, options, &metadata)?;
 			commit_overlay.push(CommitOverlay::new());
